@@ -35,7 +35,15 @@ ASSUMPTIONS = ["in a Union/Either a raising alternative is, by design, a rejecti
 
 PLAN = {"k": None, "exc": None, "count": 0, "sites": []}
 LOG = []
-EXCS = {"TraitError": TraitError, "ValueError": ValueError, "AttributeError": AttributeError, "RuntimeError": RuntimeError}
+class CodedRuntimeError(RuntimeError):
+    """A RuntimeError whose first argument is not a string (error code first)."""
+
+    def __init__(self, msg):
+        super().__init__(17, msg)
+
+
+EXCS = {"TraitError": TraitError, "ValueError": ValueError, "AttributeError": AttributeError, "RuntimeError": RuntimeError,
+        "CodedRuntimeError": CodedRuntimeError}
 
 
 def tick(site):
